@@ -605,8 +605,10 @@ def prologue_scenarios():
     """targets with unusual but legitimate first instructions, for the checks that speak about restoring /
     not touching / releasing (C02, C03, C12) and for C01"""
     scen = []
-    for pro in ("plain", "endbr64", "nop", "thunk_e9", "thunk_eb"):
+    for pro in ("plain", "endbr64", "nop", "thunk_e9", "thunk_eb", "selfmod"):
         for off in (64, 4090, 2048):
+            if pro == "selfmod" and off == 4090:
+                off = 1024
             for fl, dl in (("raw", 1), ("bool", -1), ("unchecked", 2), ("func", 1)):
                 sc = dict(flavour=fl, func_page=0x10000000, off=off, tramp_delta_pages=dl, disp=1 << 20, prologue=pro, boolv=1)
                 if fl == "func":
@@ -1192,6 +1194,12 @@ def times_check(prop, tier):
     run.states += g7["distinct"]
     run.transitions += g7["generated"]
     h7 = h7[::2] if tier == "quick" else h7
+    # ... and when one line is installed again while an earlier installation of it is still alive (a loop body, a helper
+    # called twice): each installation has its own budget, counted from zero
+    h7r, g7r = gen_behaviours("MC_LifecycleApi_c7r", timeout=3000)
+    run.states += g7r["distinct"]
+    run.transitions += g7r["generated"]
+    h7 = h7 + (h7r[::2] if tier == "quick" else h7r)
     scen7 = [hist_to_scenario(h, i, "rust", 1, diff=False, reuse_sites=True) for i, h in enumerate(h7, 1)]
     g7ev, _, _ = vlib.run_harness("lifecycle", scen7, "lifecycle_C06r")
     for i, h in enumerate(h7, 1):
